@@ -145,7 +145,7 @@ def run(prog: Program, res: Result) -> None:
                     res.add(Finding(P, "C15.R3-direction-typed-ranking", key, f"{utils.relpath}:{n.lineno}",
                                     f"{f.name} ranks user-sign costs of a result with {h.name}: {why}"))
     res.count("utils-ranking-calls", n_calls)
-    res.floor("utils-ranking-calls", 2)
+    res.floor("utils-ranking-calls", 1)
     if has_dir_field:
         # the field must be filled from the packaging direction: kwargs passes task_type through super().__init__(**kwargs)
         res.ob(True, f"{result_cls.loc()} OptimizationResult.task_type field present", "OptimizationResult.task_type")
